@@ -20,12 +20,12 @@ Inductive err :=
 | EKafka (c : Z)    (* kafka.Error(c): an error code reported by the broker *)
 | EUnread (n : Z)   (* expectZeroSize: "reading a response left n unread bytes" *)
 | EFmt (tag : N)    (* any other fmt.Errorf of the parsers (1: topic count, 2: partition count,
-                       3: message set size mismatch, 4: bad magic byte) *)
+                       3: message set size mismatch, 4: bad magic byte, 5: negative
+                       ApiVersions count, 6: negative aborted-transactions count) *)
 | ENegCount         (* bufio.ErrNegativeCount *)
 | EPanic            (* a Go panic (make with a negative length) *)
 | ENoProgress       (* io.ErrNoProgress from waitResponse *)
 | EClosed           (* write on a connection the Conn has closed *)
-| ETimedOut         (* kafka.RequestTimedOut produced locally by Batch for an empty fetch *)
 | EUnmodelled.      (* the model does not cover this path (compressed message sets) *)
 
 Definition R (A : Type) : Type := (sum A err * Z * list N)%type.
@@ -153,6 +153,19 @@ Fixpoint read_ty (t : ty) {struct t} : P val :=
 Definition expectZeroSize {A} (p : P A) : P A := fun sz s =>
   match p sz s with
   | (inl a, sz', s') => if sz' =? 0 then (inl a, sz', s') else (inr (EUnread sz'), sz', s')
+  | r => r
+  end.
+
+(* conn.go skipRemainingOnKafkaError: a parser that stopped at an error code reported by the
+   broker has the unread remainder of the response discarded (the Kafka error is kept unless the
+   discard itself fails) *)
+Definition skipRemainingOnKafkaError {A} (p : P A) : P A := fun sz s =>
+  match p sz s with
+  | (inr (EKafka c), sz1, s1) =>
+      match discardN sz1 sz1 s1 with
+      | (inl _, sz2, s2) => (inr (EKafka c), sz2, s2)
+      | (inr e, sz2, s2) => (inr e, sz2, s2)
+      end
   | r => r
   end.
 
